@@ -194,33 +194,51 @@ def _detect(drv, seed, kf, v, note):
         v.violation("muxnote, directed execution 'READ source registered after an armed WRITE source': %s: %s"
                     % ("crash inside libdispatch" if res["rc"] == 70 else "hang", res["err"].strip()[-300:]), p)
         return None
-    for fix in (False, True):
-        r = _validate(tr, _tcfg(True, fix), "directed")
-        if r.accepted:
-            if res["rc"] != 0:
-                p = save_replay(PROP, "mux_directed_oracle.ndjson", src=r.trace_with_header)
-                v.violation("muxnote, directed execution: API oracle failed although the trace follows Muxnote.tla: %s" % " ;; ".join(res["fails"][:3]), p)
-            v.traces += 1
-            v.states += r.distinct
-            v.transitions += r.generated
-            note["library_variant"] = {"list_choice_repaired": True, "per_unote_arming": fix}
-            return True, fix
-        first = r if not fix else first
-    # not a behaviour of the repaired spec: does it follow the deviation of the pinned code (reader linked as writer)?
-    for fix in (False, True):
-        r2 = _validate(tr, _tcfg(False, fix, invs="ListsMatchDirection", tag="trace_L0_F%d_lists" % fix), "directed_p")
-        if r2.violated == "ListsMatchDirection":
-            what = ("the READ source that registered while EPOLLOUT of the shared muxnote was armed was linked into the WRITERS list "
-                    "(trace follows Muxnote.tla with ListFix = FALSE, invariant ListsMatchDirection violated; with the repaired list "
-                    "choice: %s); driver oracles: %s" % (_why(first), " ;; ".join(res["fails"][:2]) or "none failed"))
-            if KF_LIST in kf:
-                v.known.append("%s [%s]" % (kf[KF_LIST]["what"], "directed execution, driver seed %d" % res["seed"]))
-                note["known_finding_%s" % KF_LIST] = what[:900]
-            else:
-                p = save_replay(PROP, "mux_directed_rejected.ndjson", src=first.trace_with_header)
-                v.violation("muxnote: " + what, p)
-            note["library_variant"] = {"list_choice_repaired": False, "per_unote_arming": fix}
-            return False, fix
+    first = None
+
+    def repaired():
+        nonlocal first
+        for fix in (False, True):
+            r = _validate(tr, _tcfg(True, fix), "directed")
+            if r.accepted:
+                if res["rc"] != 0:
+                    p = save_replay(PROP, "mux_directed_oracle.ndjson", src=r.trace_with_header)
+                    v.violation("muxnote, directed execution: API oracle failed although the trace follows Muxnote.tla: %s" % " ;; ".join(res["fails"][:3]), p)
+                v.traces += 1
+                v.states += r.distinct
+                v.transitions += r.generated
+                note["library_variant"] = {"list_choice_repaired": True, "per_unote_arming": fix}
+                return True, fix
+            first = first or r
+        return None
+
+    def pinned():
+        # does it follow the deviation of the pinned code (reader linked as writer)?
+        for fix in (False, True):
+            # (NoWrongDirDelivery is bound to a recorded merge: an EPOLLOUT delivery stored into the READ unote's ds_pending_data)
+            r2 = _validate(tr, _tcfg(False, fix, invs="NoWrongDirDelivery", tag="trace_L0_F%d_lists" % fix), "directed_p")
+            if r2.violated == "NoWrongDirDelivery":
+                what = ("the READ source that registered while EPOLLOUT of the shared muxnote was armed was linked into the WRITERS list "
+                        "and handed an EPOLLOUT delivery (the trace follows Muxnote.tla with ListFix = FALSE up to the violation of invariant "
+                        "NoWrongDirDelivery: %s); "
+                        "driver oracles: %s" % (_context(r2, 4), " ;; ".join(res["fails"][:2]) or "none failed"))
+                if KF_LIST in kf:
+                    v.known.append("%s [%s]" % (kf[KF_LIST]["what"], "directed execution, driver seed %d" % res["seed"]))
+                    note["known_finding_%s" % KF_LIST] = what[:1200]
+                else:
+                    p = save_replay(PROP, "mux_directed_rejected.ndjson", src=r2.trace_with_header)
+                    v.violation("muxnote: " + what, p)
+                note["library_variant"] = {"list_choice_repaired": False, "per_unote_arming": fix}
+                return False, fix
+        return None
+
+    # (the variant the known-findings list expects is tried first: fewer TLC starts)
+    for attempt in ((pinned, repaired) if KF_LIST in kf else (repaired, pinned)):
+        got = attempt()
+        if got is not None:
+            return got
+    if first is None:
+        first = _validate(tr, _tcfg(True, False), "directed")
     p = save_replay(PROP, "mux_directed_rejected.ndjson", src=first.trace_with_header)
     v.violation("muxnote, directed execution 'READ source registered after an armed WRITE source': trace rejected: %s" % _why(first), p)
     return None
@@ -307,13 +325,34 @@ def traces(v, tier, seed):
 
     def one(job):
         name, s, perturb, n, cfgmask, fl, storm, two = job
-        res = _run(drv, name, s, perturb, n, cfgmask, fl, storm)
-        return _judge(res, variant, kf, two), two
+        return _run(drv, name, s, perturb, n, cfgmask, fl, storm), two
 
     t1 = time.time()
     with ThreadPoolExecutor(max_workers=4) as ex:
-        results = list(ex.map(one, jobs))
-    note["phase_wall_s"]["runs_and_validation"] = round(time.time() - t1, 1)
+        ran = list(ex.map(one, jobs))
+        note["phase_wall_s"]["driver_runs"] = round(time.time() - t1, 1)
+        t1 = time.time()
+        # the clean READ+WRITE runs are validated with ONE TLC start (executions are Reset-delimited and independent);
+        # only if that is rejected are they validated one by one.  Everything else is judged run by run.
+        clean = [res for res, two in ran if not two and res["rc"] == 0]
+        batch_r = None
+        if len(clean) > 1:
+            comb = os.path.join(_rd(), "rw_batch.ndjson")
+            with open(comb, "w") as f:
+                for res in clean:
+                    f.write(open(res["trace"]).read())
+            fb = ex.submit(_validate, comb, _tcfg(True, fix), "rwbatch")
+        singles = [(res, two) for res, two in ran if two or res["rc"] != 0 or len(clean) <= 1]
+        fs = [ex.submit(_judge, res, variant, kf, two) for res, two in singles]
+        results = [(f.result(), two) for f, (res, two) in zip(fs, singles)]
+        if len(clean) > 1:
+            batch_r = fb.result()
+            if batch_r.accepted:
+                for k, res in enumerate(clean):
+                    results.append(({"res": res, "viol": [], "known": [], "tlc": batch_r if k == 0 else None, "sib_execs": set()}, False))
+            else:
+                results += [(x, False) for x in ex.map(lambda res: _judge(res, variant, kf, False), clean)]
+    note["phase_wall_s"]["validation"] = round(time.time() - t1, 1)
     stats = collections.Counter()
     known = collections.Counter()
     for out, two in results:
@@ -332,18 +371,19 @@ def traces(v, tier, seed):
         r = out["tlc"]
         nx = sum(res["stats"].get(k, 0) for k in ("exec_RW", "exec_RR", "exec_RRW"))
         v.traces += nx
-        v.states += r.distinct
-        v.transitions += r.generated
         stats["driver_runs"] += 1
-        stats["records_validated"] += (r.tracelen or 0)
-        stats["runs_under_signal_storm"] += 1 if res["storm"] else 0
+        stats["runs_under_signal_storm"] += 1 if (res["storm"] or os.environ.get("VRT_SIGNAL_STORM_US", "") not in ("", "0")) else 0
         for k, val in res["stats"].items():
             if k not in ("records", "overflow", "threads"):
                 stats[k] += val
+        if r is not None:
+            v.states += r.distinct
+            v.transitions += r.generated
+            stats["records_validated"] += (r.tracelen or 0)
         if len(v.samples) < 4 and (two or len(v.samples) < 2):
             lines = open(res["trace"]).read().splitlines()
             k0 = next((j for j, x in enumerate(lines) if '"e":"Wait"' in x), 0)
-            v.samples.append({"trace": "mux/" + os.path.basename(res["trace"]), "records": r.tracelen,
+            v.samples.append({"trace": "mux/" + os.path.basename(res["trace"]), "records": len(lines),
                               "excerpt": [x[:190] for x in lines[max(0, k0 - 3):k0 + 9]]})
     if known[KF_SIB]:
         v.known.append("%s [%d driver runs with two READ sources]" % (kf[KF_SIB]["what"], known[KF_SIB]))
